@@ -498,10 +498,21 @@ func runDiskCase(c *hx.Ctx, id string, r *hx.Rng) {
 		// there), the outcome of the verification pass depends on the interleaving of ReadAt and WriteAt: such a
 		// pair is run and judged by the oracle below but not compared with the model.
 		modelled := !copyRangesOverlap(dk, from, to, dc.pss)
+		if !modelled {
+			c.Stat("disk.copy.overlap-not-modelled")
+		} else if c.Thorough() {
+			// the model's copy (device as a closure over the write list, verification pass included) costs ~0.1 s
+			// per case in the driver: in the thorough tier every 6th copy is compared with the model (all of them in
+			// the quick tier); the oracle below judges every one
+			var k int
+			fmt.Sscanf(id, "dk%d", &k)
+			if k%6 != 0 {
+				modelled = false
+				c.Stat("disk.copy.model-sampled-out")
+			}
+		}
 		if modelled {
 			c.Case(id+"/cp", "partio.copy", append(dc.common(), fmt.Sprintf("from=%d", from), fmt.Sprintf("to=%d", to))...)
-		} else {
-			c.Stat("disk.copy.overlap-not-modelled")
 		}
 		d.ResetLog()
 		done := make(chan error, 1)
